@@ -50,6 +50,11 @@ def variants(r, tier):
         for hw in (None, 25):
           out.append(dict(batch=batch, dyn=dyn, retries=retries, protocol=protocol, hw=hw))
   r.shuffle(out)
+  # USE_RATIO_RESET: connections that send less than MIN_RESET_RATIO of what was received in the last stats period are
+  # reset (at most every MIN_RESET_INTERVAL seconds); only meaningful with statistics ticks in the sequence
+  for k, v in enumerate(out):
+    v['ratio'] = (k % 4 == 3)
+    v['reset_interval'] = [0, 121][k % 2]
   return out
 
 
@@ -61,6 +66,9 @@ def apply_variant(settings, v, router='constant', rf=1):
   settings['RELAY_METHOD'] = router
   settings['REPLICATION_FACTOR'] = rf
   settings['DIVERSE_REPLICAS'] = False
+  settings['USE_RATIO_RESET'] = bool(v.get('ratio'))
+  settings['MIN_RESET_STAT_FLOW'] = 1 if v.get('ratio') else 1000
+  settings['MIN_RESET_INTERVAL'] = v.get('reset_interval', 121)
   from carbon.conf import settings as _s
   return v.get('hw')
 
@@ -106,7 +114,7 @@ def run_config(cfg, res, relay_oracle=None, extra_weights=None):
 
   def finish(s, v, events):
     for k, n in s.counters.items():
-      if k in ('accepted', 'refused', 'reinjected', 'stop_raised', 'pauses_from_inside_write', 'closes_by_carbon_observed'):
+      if k in ('accepted', 'refused', 'reinjected', 'stop_raised', 'pauses_from_inside_write', 'closes_by_carbon_observed', 'stats_ticks', 'quality_resets_observed'):
         res.count(k, n)
     res.count('sequences_executed')
     res.count('events_executed', len(s.log))
@@ -165,7 +173,9 @@ def run_config(cfg, res, relay_oracle=None, extra_weights=None):
     router, rf = r.choice([('constant', 1), ('consistent-hashing', 1), ('consistent-hashing', 2)])
     ns.transport_hw = apply_variant(ns.settings, v, router, rf)
     n = r.randint(30, 200)
-    evs = [(r.choices(names, [weights[x] for x in names])[0], r.randrange(nd)) for _ in range(n)]
+    w = dict(weights, stats=(1.5 if v.get('ratio') else 0.2))
+    wn = list(w)
+    evs = [(r.choices(wn, [w[x] for x in wn])[0], r.randrange(nd)) for _ in range(n)]
     from vlib import relayharness
     s = relayharness.Seq(ns, DESTS[:nd], receivers=(2 if relay_oracle else 0))
     for ev, i in evs:
